@@ -22,6 +22,13 @@ def run(ctx):
         if not res.anchor(b is not None, path):
             continue
         sws = [s for s in enum_switches(b, TYPE) if "Multi" in s["arms"]]
+        if not sws:
+            # a query written as a delegation to another member of the family on the same type (has_field(x) = field_type(x).is_some())
+            # inherits that member's treatment of unions
+            deleg = sorted({fam[c.callee] for c in b.calls if c.callee in fam and fam[c.callee] != name})
+            if deleg and not enum_switches(b, TYPE):
+                res.ok("fold:%s|delegates" % name, b.where(), "delegates to Type::%s" % ", ".join(deleg))
+                continue
         if not res.anchor(bool(sws), "match arm for Type::Multi in " + path):
             continue
         region = set()
